@@ -27,6 +27,12 @@ func CanonErr(err error) string {
 		Position() uint
 	}
 	if stdErrors.As(err, &pe) {
+		// the position is an offset into a file: the blamed file (root schema,
+		// an added type, the document) belongs to it
+		var fe interface{ Filename() string }
+		if stdErrors.As(err, &fe) {
+			return fmt.Sprintf("E%d@%d:%s", pe.ErrCode(), pe.Position(), fe.Filename())
+		}
 		return fmt.Sprintf("E%d@%d", pe.ErrCode(), pe.Position())
 	}
 	var ve interface{ ErrCode() int }
